@@ -62,6 +62,10 @@ func (s *sim) dial(sni string) (*client, error) {
 	}
 	s.clients = append(s.clients, c)
 	s.probes["tls_handshakes"]++
+	if b := s.boot; b != nil && b.advert != c.pin {
+		s.violate("C05", "advertised-is-served", "the fingerprint the server advertises is not the pin of the key it serves",
+			"server advertises %s but this TLS handshake presented a key whose pin is %s", b.advert, c.pin)
+	}
 	return c, nil
 }
 
